@@ -6,6 +6,7 @@ import (
 	"sort"
 	"strconv"
 	"strings"
+	"syscall"
 	"time"
 
 	"github.com/whatap/golib/config"
@@ -333,6 +334,7 @@ type c18WB struct {
 	BadText  string            `json:"bad_text,omitempty"`
 	Expect   []c18Item         `json:"-"`
 	Added    map[string]string `json:"-"`
+	Failed   string            `json:"injected_failure,omitempty"` // this write-back met an injected disk error
 	interm   []string
 }
 
@@ -556,6 +558,13 @@ func c18Body(rc *RunCtx) {
 	tasks = append(tasks, editor)
 	if doWB {
 		nWB := 1 + simrt.Choose(2)
+		// fault: the first write-back meets a disk error the process survives (descriptor table
+		// full when the temporary file is opened, or no space when it is written); the file must
+		// stay as it was, and the write-backs after it must be as good as ever
+		failFirst := simrt.ChanceF(1, 4)
+		if failFirst {
+			nWB++
+		}
 		wbt := simrt.GoNamed("writer", func() {
 			for w := 0; w < nWB; w++ {
 				simrt.Sleep(time.Duration(200+simrt.Choose(9000)) * time.Millisecond)
@@ -604,14 +613,43 @@ func c18Body(rc *RunCtx) {
 				wb.Expect = exp
 				d.WBs = append(d.WBs, wb)
 				d.inWB = wb
+				fired := ""
+				if failFirst && w == 0 {
+					if simrt.ChooseF(2) == 0 {
+						disk.FailOpen = func(p string, flag int) error {
+							if fired == "" && p != d.path && flag&(simos.O_WRONLY|simos.O_RDWR) != 0 {
+								fired = "open " + p + ": too many open files"
+								simrt.Fault("writeback_open_failure")
+								return syscall.EMFILE
+							}
+							return nil
+						}
+					} else {
+						disk.FailWrite = func(p string) error {
+							if fired == "" && p != d.path {
+								fired = "write " + p + ": no space left on device"
+								simrt.Fault("writeback_write_failure")
+								return syscall.ENOSPC
+							}
+							return nil
+						}
+					}
+				}
 				simrt.SetOp(5000 + w)
 				wb.Start = simrt.Stamp()
 				cfg.SetValues(&kv)
 				wb.End = simrt.Stamp()
 				simrt.SetOp(0)
 				d.inWB = nil
+				disk.FailOpen, disk.FailWrite = nil, nil
 				nb, _ := disk.ReadRaw(d.path)
 				wb.New = string(nb)
+				if fired != "" {
+					// the error hit the temporary file before anything was renamed into place
+					wb.Failed = fired
+					d.lastChange = simrt.Elapsed()
+					continue
+				}
 				simrt.Probe("writeback_done")
 				// later edits start from what is actually on disk (the relative order of appended
 				// keys is unspecified); the content itself is judged in After against wb.Expect
@@ -752,6 +790,12 @@ func c18After(rc *RunCtx, res *simrt.Result) {
 				viol("writeback-not-atomic", fmt.Sprintf("write-back #%d: at a disk-operation boundary (%s) the file held neither the old nor the new complete content: %q (old %q, new %q); boundaries: %v", i+1, wb.BadBound, truncate(s, 200), truncate(wb.Old, 200), truncate(wb.New, 200), wb.Bounds))
 				break
 			}
+		}
+		if wb.Failed != "" {
+			if wb.New != wb.Old {
+				viol("writeback-content", fmt.Sprintf("write-back #%d %v met an injected error (%s) before anything was put in place, yet the file changed: old %q | new %q", i+1, wb.KV, wb.Failed, truncate(wb.Old, 300), truncate(wb.New, 300)))
+			}
+			continue
 		}
 		// content: comments byte-equal and in place, kv lines in order with expected values, added keys at the end
 		lines := strings.Split(strings.TrimSuffix(wb.New, "\n"), "\n")
